@@ -15,6 +15,7 @@
 import Dlismodel.Proofs.Eflr
 import Dlismodel.Proofs.Convert
 import Dlismodel.Proofs.Defaults
+import Dlismodel.Proofs.Float
 namespace Dlis.C05
 open Dlis
 
@@ -52,7 +53,10 @@ def canon (rc : Nat) (v : AVal) : Option CVal :=
     | .bool b => some (.bits (if b then 0x3FF0000000000000 else 0)) | _ => none
   else if rc = 2 then
     match v with
-    | .f32 b => some (.bits b) | .bool b => some (.bits (if b then 0x3F800000 else 0)) | _ => none
+    | .f32 b => some (.bits b) | .bool b => some (.bits (if b then 0x3F800000 else 0))
+    | .f64 b => (f64ToF32 b).toOption.map .bits         -- a Python float: the nearest single (Proofs/Float.lean)
+    | .int i => (intToF64 i).bind (fun d => (f64ToF32 d).toOption.map .bits)
+    | _ => none
   else if rc = 19 ∨ rc = 20 then
     match v with
     | .str s => some (.text (s.map b8)) | .int i => some (.text ((intStr i).map b8))
@@ -158,8 +162,27 @@ theorem decodeVal_encVal (rc : Nat) (v : AVal) (b : Bytes) (hv : AValOk v) (h : 
     | bool x =>
       simp at h; subst h
       cases x <;> simp [decodeVal, canon] <;> decide
-    | f64 _ => simp at h
-    | int _ => simp at h
+    | f64 n =>
+      simp only at h
+      split at h
+      · rename_i hn
+        rw [emap_ok] at h
+        obtain ⟨r, hr, rfl⟩ := h
+        have := f64ToF32_lt n r hn hr
+        simp [decodeVal, canon, hr, Except.toOption, beN_lt 4 r (by simpa using this)]
+      · simp at h
+    | int i =>
+      simp only at h
+      cases hw : intToF64 i with
+      | none => rw [hw] at h; simp at h
+      | some d =>
+        rw [hw] at h
+        simp only at h
+        rw [emap_ok] at h
+        obtain ⟨r, hr, rfl⟩ := h
+        have hd : d < 2 ^ 64 := intToF64_lt i d hw
+        have := f64ToF32_lt d r hd hr
+        simp [decodeVal, canon, hw, hr, Except.toOption, beN_lt 4 r (by simpa using this)]
     | str _ => simp at h
     | dtime _ => simp at h
     | obj _ _ => simp at h
